@@ -200,6 +200,21 @@ def bounded_native(ck):
                 fails.append({"obligation": "bounded.value", "clause": "single-event first call", "input": {"version": ver, "beta": float(b0[j]), "log_e_nu": float(e0[j]), "first_call": True},
                               "observed": {"code": float(s1), "spec": float(w[j])}})
                 break
+        # element types: energies that are not float64 (float32 as read from a single-precision column, integer node energies) with float64
+        # angles, and the other way round -- the probability is that of the float64 numbers they denote, not truncated to the energy's type
+        bt = np.radians(np.array([2.0, 7.5, 15.0, 33.0, 41.0, 48.0]))
+        for e_arr, b_arr, what in ((np.array([7.0, 8.0, 9.0, 10.0, 8.0, 9.0], dtype=np.int64), bt, "int64 energies"), (np.array([7.25, 8.5, 9.75, 10.5, 8.0, 9.0], dtype=np.float32), bt, "float32 energies"),
+                                   (np.array([7.25, 8.5, 9.75, 10.5, 8.0, 9.0]), bt.astype(np.float32), "float32 angles")):
+            n += b_arr.size
+            try:
+                gt = np.asarray(fresh_taus(ver).tau_exit_prob(b_arr.copy(), e_arr.copy()), dtype=float)
+                wt = want(np.asarray(b_arr, dtype=float), np.asarray(e_arr, dtype=float))
+                if gt.shape != wt.shape or not np.allclose(gt, wt, rtol=2e-5, atol=0):
+                    j = int(np.argmax(np.abs(gt - wt) / wt)) if gt.shape == wt.shape else 0
+                    fails.append({"obligation": "bounded.value", "clause": "tau_exit_prob == 10^bilinear(log10 table) whatever the element type of the energy / angle arrays",
+                                  "input": {"version": ver, "element types": what, "beta": float(b_arr[j]), "log_e_nu": float(e_arr[j])}, "observed": {"code": float(gt[j]) if gt.shape == wt.shape else str(gt.shape), "spec": float(wt[j])}})
+            except Exception as ex:
+                fails.append({"obligation": "bounded.value", "clause": "tau_exit_prob evaluates for %s" % what, "input": {"version": ver, "element types": what}, "observed": "raised %r" % ex})
         # batch compositions: every event at the same energy (what a mono-energetic run produces), on and off the tabulated energies
         for e_same in (8.0, 8.6, 6.1, 11.87):
             bm = np.concatenate([np.radians(rng.uniform(0.0, 50.0, 300)), [0.0005, nt.ax1[0], nt.ax1[-1]]])
